@@ -394,11 +394,15 @@ def run_check(check, tier, seed):
             # this property's own clauses was found: the proof of this property is incomplete, not refuted
             undecided[ob.name] = (f"auxiliary obligation owned by {owner} is {ob.status}; no violation of {prop}'s clauses "
                                   f"found by the bounded native search")
-        elif ob.status == "refuted" or was_discharged:
+        elif was_discharged:
+            # an obligation that is discharged on the unchanged tree (obligations.lock.json) and no longer is
             path = write_replay(prop, ob.name, payload)
             violations.append((ob.name, path, " no-failing-input-found"))
         else:
-            undecided[ob.name] = f"solver answer {ob.status}; obligation not in baseline lock"
+            # an obligation the unchanged tree does not have (the code was restructured) that is not discharged -- even when the
+            # solver has a model: harness states over-approximate (abstract lists, havocked callee effects), so a model that does
+            # not replay on the real code decides nothing
+            undecided[ob.name] = f"solver answer {ob.status}; obligation not in baseline lock and no failing input found on the real code"
     if bres is not None:
         for v in bres.get("violations", []):
             k = known_for_case(v.get("case_key"))
